@@ -312,6 +312,18 @@ func main() {
 			s.prepare(e).run()
 			s.ev("Search").run()
 		})
+		try("sync_fresh_ok", func() {
+			s := newPoolSession()
+			e := s.ev("SyncAdd")
+			e.Item = SyncItem{ID: "m1", Kind: "msg", Slot: 0, V: 1}
+			s.prepare(e).run()
+			r := s.ev("SyncReset")
+			r.Slot = 0
+			r.run()
+			e2 := s.ev("SyncAdd")
+			e2.Item = SyncItem{ID: "c1", Kind: "contrib", Slot: 0, Sub: 1}
+			s.prepare(e2).run()
+		})
 		b, _ := json.Marshal(res)
 		fmt.Println(string(b))
 	default:
